@@ -44,7 +44,8 @@ fn fwd(op: &Op, _ctx: &dyn Context, operands: &mut dyn CoordinateSet) -> usize {
             let (sin_lon, cos_lon) = (lon - lon_0).sin_cos();
 
             let q = ancillary::qs(lat.sin(), e);
-            let rho = a * (qp + sign * q).sqrt();
+            // Rounding may take the radicand slightly below zero at the pole in the center
+            let rho = a * (qp + sign * q).max(0.0).sqrt();
 
             let easting = x_0 + rho * sin_lon;
             let northing = y_0 + sign * rho * cos_lon;
@@ -156,7 +157,9 @@ fn inv(op: &Op, _ctx: &dyn Context, operands: &mut dyn CoordinateSet) -> usize {
         let (sin_c, cos_c) = c.sin_cos();
 
         // The authalic latitude, 𝜉
-        let xi = (cos_c * sin_xi_0 + (d * (y - y_0) * sin_c * cos_xi_0) / rho).asin();
+        let xi = (cos_c * sin_xi_0 + (d * (y - y_0) * sin_c * cos_xi_0) / rho)
+            .clamp(-1.0, 1.0)
+            .asin();
 
         let lat = ellps.latitude_authalic_to_geographic(xi, &authalic);
 
